@@ -1518,8 +1518,42 @@ async fn run_corpus(out: &mut Out, seed: u64, tally: &mut Tally) {
 
 pub const SCENARIOS: [&str; 5] = ["fresh", "reorg", "rejfork", "window", "staking"];
 
+/// The commitment function of the code under test against the harness' own construction, on lists of 0..=12 transactions
+/// (every block the suite builds is sealed by the real `Block::create`; if the two constructions part ways the scenarios
+/// cannot even be built). Returns false when they differ (reported as a C06 failure with the list length as the input).
+fn merkle_reference_probe(out: &mut Out) -> bool {
+    let mut ok = true;
+    for n in 0..=12usize {
+        let mut b = Block::new();
+        for i in 0..n {
+            let mut t = Transaction::default();
+            t.timestamp = 1_700_000_000_000 + i as u64;
+            t.data = vec![i as u8, n as u8];
+            t.generate_hash_for_signature();
+            b.transactions.push(t);
+        }
+        let got = guarded(|| b.generate_merkle_root(false, false));
+        let want = crate::node::ref_merkle_root(&b.transactions);
+        out.count("merkle-reference-probe");
+        if got != Ok(want) {
+            ok = false;
+            out.monitor_fail(
+                &format!("C06/commitment-of-a-transaction-list-differs-from-the-reference-construction/{}-transactions", if n % 2 == 1 { "odd" } else { "even" }),
+                &format!("Block::generate_merkle_root over {} transactions gives {:?}, the pairwise construction (odd node carried up unchanged) gives {}: lists of different length or order may now commit to the same root", n, got.map(|h| hex::encode(h)), hex::encode(want)),
+                serde_json::json!({"transactions": n}),
+            );
+        }
+    }
+    ok
+}
+
 async fn run_async(seed: u64, tier: &str, outdir: &str) {
     let mut out = Out::new(outdir);
+    if !merkle_reference_probe(&mut out) {
+        // the scenarios seal their blocks with the function that just failed: nothing further can be built
+        out.finish(serde_json::json!({"stopped": "commitment function differs from the reference construction"}));
+        return;
+    }
     let flags = calibrate().await;
     out.setup(&flags.line());
     let thorough = tier == "thorough";
